@@ -155,6 +155,7 @@ def run(tier, seed, which="C01"):
         add_out_events(tp)
         try:
             res = kv.run_tlc("WeaveTrace", "WeaveTrace.cfg", bwd, trace=tp, timeout=1200, heap="3g")
+            res.pipeline = kv.run_tlc("KalignTrace", "KalignTrace.cfg", bwd, trace=tp, timeout=1200, heap="3g", name="pipe")
         except kv.Broken as e:
             return bi, rc, err, None, str(e)
         return bi, rc, err, res, None
@@ -167,6 +168,10 @@ def run(tier, seed, which="C01"):
             raise kv.Broken(broken)
         for X in (V, V10):
             X.add_tlc(res)
+            X.add_tlc(res.pipeline)
+            X.extra["pipeline_events_validated"] = X.extra.get("pipeline_events_validated", 0) + res.pipeline.distinct
+        for (ln, sid, items) in res.pipeline.divs:
+            V.divergence("pipeline model, scenario %s line %d: %s (batch %d)" % (sid, ln, ",".join(sorted(items)), bi))
         for sc in b:
             key = json.dumps([sc["seqs"], sc["type"], sc["gpo"], sc["gpe"], sc["tgpe"], sc["threads"], sc.get("api", "")])
             nt = len(set(sc["seqs"])) > 1 and max(len(s) for s in sc["seqs"]) > 1
